@@ -227,6 +227,37 @@ def run_harness(prop, seed, tier, workdir, log, extra=None, timeout=3000):
     return json.load(open(rj)), None
 
 
+def implementation_crash(prop, workdir):
+    """The harness process died.  If the goroutine that panicked (or hit a fatal runtime error) was
+    running library code only - no frame of the harness (package main) in its stack - the crash is
+    the implementation's: return it as a violation whose failing input is the case the harness had
+    announced in current_case.json."""
+    try:
+        out = open(os.path.join(workdir, "harness.out"), errors="replace").read()
+    except OSError:
+        return None
+    m = re.search(r"^(panic: .*|fatal error: .*)$", out, re.M)
+    if not m:
+        return None
+    g = re.search(r"^goroutine \d+ \[[^\]]*\]:\n(.*?)(?:\n\n|\Z)", out[m.start():], re.M | re.S)
+    if not g:
+        return None
+    stack = g.group(1)
+    frames = [l for l in stack.splitlines() if l and not l.startswith("\t")]
+    if any(f.startswith("main.") for f in frames):
+        return None
+    if "berty.tech/go-ipfs-log" not in stack:
+        return None
+    case = None
+    try:
+        case = json.load(open(os.path.join(workdir, "current_case.json")))
+    except (OSError, ValueError):
+        pass
+    return {"property": prop, "monitor": "no-crash", "key": "%s:process-crash" % prop,
+            "detail": "the process crashed inside the library while the harness was running the case below: %s\n%s" % (m.group(1), stack[:1500]),
+            "case": case}
+
+
 def run_cases(case_files, workdir, log):
     """coqc every case file in parallel; returns (mismatches, errors)
     mismatches: list of dict(file, list, index, label)"""
@@ -340,6 +371,9 @@ def main():
         extra = ["-replay", args.replay] if args.replay else None
         res, herr = run_harness(prop, seed, tier, workdir, log, extra)
         if herr:
+            crash = implementation_crash(prop, workdir)
+            if crash:
+                violations.append(crash)
             broken.append(("harness-run", herr))
         else:
             # 4. model on the recorded cases
